@@ -1501,6 +1501,19 @@ class SpaceManager(SharedSpaceOperations):
             space.clear_subs_rootitems()
             c.on_inherit(self, bases)
 
+    def set_cells_allow_none(self, cells, value):
+        """Set allow_none of cells and of the cells derived from it"""
+        for space in self._get_subs(cells.parent, skip_self=False):
+            c = space.cells[cells.name]
+            if c is not cells:
+                if c.is_defined():
+                    continue
+                elif self.get_deriv_bases(
+                        c, defined_only=True)[0] is not cells:
+                    continue
+            space.clear_subs_rootitems()
+            c.allow_none = value
+
     def set_cells_formula(self, cells, func):
         self.set_cells_property(cells, UserCellsImpl.PROP_FORMULA, func, True)
 
